@@ -8,10 +8,10 @@ package main
 // UnwrapTree / HasCycle / Walk / UnwrapTreeFrom are printed as a Coq term of type C06.case.
 
 import (
-	"errors"
-	"log/slog"
 	"encoding/json"
+	"errors"
 	"fmt"
+	"log/slog"
 	"reflect"
 	"runtime/debug"
 	"strings"
